@@ -10,6 +10,9 @@ import (
 	"sort"
 
 	. "goa.design/goa/v3/dsl" //nolint
+	"goa.design/goa/v3/expr"
+
+	"verif/checks/c09/xdesigns/ext2"
 )
 
 // Designs maps a design name to the function that declares it.
@@ -19,6 +22,8 @@ var Designs = map[string]func(){
 	"x-grpc":         grpcDesign,
 	"x-multi":        multi,
 	"x-convert":      convert,
+	"x-summary-both": summaryBoth,
+	"x-pkgpath":      pkgPath,
 }
 
 // Names returns the design names in ascending order.
@@ -244,6 +249,12 @@ func openapiRich() {
 			Example(map[string]string{"k1": "v1", "k2": "v2", "k3": "v3"})
 		})
 		Attribute("any_map", MapOf(String, Any))
+		Attribute("defaults", MapOf(String, String), func() {
+			Default(expr.MapVal{"dk1": "dv1", "dk2": "dv2", "dk3": "dv3"})
+		})
+		Attribute("nested_defaults", MapOf(String, MapOf(String, Int)), func() {
+			Default(expr.MapVal{"outer1": expr.MapVal{"i1": 1, "i2": 2}, "outer2": expr.MapVal{"i3": 3, "i4": 4}})
+		})
 		Attribute("count", Int, func() { Minimum(1); Maximum(10) })
 		Meta("openapi:extension:x-type-one", `1`)
 		Meta("openapi:extension:x-type-two", `2`)
@@ -262,6 +273,10 @@ func openapiRich() {
 		Error("worse", Item)
 		HTTP(func() {
 			Path("/front")
+			Meta("openapi:extension:x-httpsvc-one", `1`)
+			Meta("openapi:extension:x-httpsvc-two", `2`)
+			Meta("swagger:extension:x-httpsvc-three", `3`)
+			Meta("swagger:extension:x-httpsvc-four", `4`)
 			Response("not_found", StatusNotFound)
 			Response("bad", StatusBadRequest)
 		})
@@ -313,6 +328,10 @@ func openapiRich() {
 			HTTP(func() {
 				POST("/items")
 				PUT("/items")
+				Meta("openapi:extension:x-httpep-one", `1`)
+				Meta("openapi:extension:x-httpep-two", `2`)
+				Meta("swagger:extension:x-httpep-three", `3`)
+				Meta("openapi:tag:Endpoint")
 				Header("token:X-Token")
 				Header("key:X-Key")
 				Header("access:X-Access")
@@ -354,7 +373,26 @@ func openapiRich() {
 			})
 		})
 	})
+	var Tagged = ResultType("application/vnd.xopenapi.tagged; version=1; flavor=plain", func() {
+		TypeName("Tagged")
+		Attributes(func() {
+			Attribute("t", String)
+			Attribute("u", Int)
+		})
+		View("default", func() {
+			Attribute("t")
+			Attribute("u")
+		})
+		View("tiny", func() {
+			Attribute("t")
+		})
+	})
 	Service("back", func() {
+		Method("tagged", func() {
+			NoSecurity()
+			Result(CollectionOf(Tagged))
+			HTTP(func() { GET("/tagged") })
+		})
 		Meta("openapi:tag:Backend")
 		Security(Key)
 		Error("not_found")
@@ -628,16 +666,11 @@ func multi() {
 	}
 }
 
-// ExtThing and ExtOther are external Go types for ConvertTo / CreateFrom.
+// ExtThing is an external Go type for ConvertTo / CreateFrom (a second one lives in ext2).
 type ExtThing struct {
 	Name  string
 	Count *int
 	Props map[string]string
-}
-
-// ExtOther is a second external type.
-type ExtOther struct {
-	Name string
 }
 
 // convert: ConvertTo / CreateFrom with external Go types (codegen/service/convert.go).
@@ -654,14 +687,96 @@ func convert() {
 	var U = Type("ConvOther", func() {
 		Attribute("name", String)
 		Required("name")
-		ConvertTo(ExtOther{})
-		CreateFrom(ExtOther{})
+		ConvertTo(ext2.Other{})
+		CreateFrom(ext2.Other{})
 	})
 	Service("conv", func() {
 		Method("a", func() {
 			Payload(T)
 			Result(U)
 			HTTP(func() { POST("/a") })
+		})
+	})
+}
+
+// summaryBoth: an endpoint that carries both the current and the legacy spelling of the OpenAPI
+// summary key, at method level and at HTTP endpoint level, with different values.
+func summaryBoth() {
+	API("xsummary", func() { Title("summary") })
+	Service("sum", func() {
+		Method("method_level", func() {
+			Meta("openapi:summary", "summary from the openapi key")
+			Meta("swagger:summary", "summary from the swagger key")
+			Result(String)
+			HTTP(func() { GET("/m") })
+		})
+		Method("endpoint_level", func() {
+			Result(String)
+			HTTP(func() {
+				GET("/e")
+				Meta("openapi:summary", "endpoint summary from the openapi key")
+				Meta("swagger:summary", "endpoint summary from the swagger key")
+			})
+		})
+	})
+}
+
+// pkgPath: user types located in two other packages (struct:pkg:path) and attributes whose Go
+// type is replaced (struct:field:type with an import) by types of two different packages.
+func pkgPath() {
+	API("xpkgpath", func() { Title("pkgpath") })
+	var A = Type("LocA", func() {
+		Meta("struct:pkg:path", "typesa")
+		Attribute("a", String)
+		Attribute("when", String, func() {
+			Meta("struct:field:type", "time.Time", "time")
+		})
+		Attribute("big", String, func() {
+			Meta("struct:field:type", "big.Int", "math/big")
+		})
+		Attribute("raw", Bytes, func() {
+			Meta("struct:field:type", "json.RawMessage", "encoding/json")
+		})
+	})
+	var B = Type("LocB", func() {
+		Meta("struct:pkg:path", "typesb")
+		Attribute("b", Int)
+		Attribute("stamp", String, func() {
+			Meta("struct:field:type", "time.Duration", "time")
+		})
+	})
+	var C = ResultType("application/vnd.xpkgpath.c", func() {
+		TypeName("LocC")
+		Meta("struct:pkg:path", "typesc")
+		Attributes(func() {
+			Attribute("c", String)
+			Attribute("d", Int)
+		})
+		View("default", func() {
+			Attribute("c")
+			Attribute("d")
+		})
+	})
+	Service("loc", func() {
+		Method("m1", func() {
+			Payload(A)
+			Result(B)
+			HTTP(func() { POST("/m1") })
+		})
+		Method("m2", func() {
+			Payload(B)
+			Result(C)
+			HTTP(func() { POST("/m2") })
+		})
+	})
+	Service("loc2", func() {
+		Method("m3", func() {
+			Payload(func() {
+				Attribute("a", A)
+				Attribute("b", B)
+			})
+			Result(C)
+			HTTP(func() { POST("/m3") })
 		})
 	})
 }
